@@ -5,6 +5,7 @@ go 1.19
 require (
 	github.com/atomix/go-sdk v0.13.3
 	github.com/gogo/protobuf v1.3.2
+	github.com/golang/protobuf v1.5.3
 	github.com/onosproject/onos-api/go v0.10.32
 	github.com/onosproject/onos-config v0.0.0
 	github.com/onosproject/onos-lib-go v0.10.17
@@ -32,7 +33,6 @@ require (
 	github.com/golang-jwt/jwt/v5 v5.0.0 // indirect
 	github.com/golang/glog v1.0.0 // indirect
 	github.com/golang/mock v1.6.0 // indirect
-	github.com/golang/protobuf v1.5.3 // indirect
 	github.com/golang/snappy v0.0.4 // indirect
 	github.com/google/go-cmp v0.5.9 // indirect
 	github.com/google/uuid v1.3.0 // indirect
